@@ -7,7 +7,7 @@ from vf.gen.render import I, K, L, N, P, T, comma_list, dotted, paren, render
 from vf.gen.vocab import DECIMALS, pick_names
 
 # --------------------------------------------------------------------------- types
-# (words, size)   size: None | [n] | [p, s]
+# (words, size[, words after the size])   size: None | [n] | [p, s]
 CORE_TYPES = [
     (["int"], None), (["integer"], None), (["bigint"], None), (["smallint"], None),
     (["text"], None), (["date"], None), (["timestamp"], None), (["boolean"], None),
@@ -16,6 +16,8 @@ CORE_TYPES = [
     (["decimal"], [10, 2]), (["numeric"], [5, 0]), (["number"], [38]), (["float"], [8]),
     (["double", "precision"], None), (["character", "varying"], [30]), (["varchar"], None),
     (["decimal"], [18, 4]), (["NUMERIC"], [12, 3]),
+    # type words after the size (MySQL): reported as part of the type text, the size stays whole
+    (["decimal"], [10, 2], ["unsigned"]), (["int"], [11], ["unsigned"]), (["numeric"], [8, 3], ["unsigned", "zerofill"]), (["bigint"], [20], ["UNSIGNED"]), (["int"], None, ["unsigned"]),
     (["time"], [0]), (["timestamp"], [0]), (["varchar"], [0]), (["decimal"], [0, 0]), (["timestamp"], [6]), (["bit", "varying"], [5]),
 ]
 
@@ -42,17 +44,19 @@ ACTIONS = [None, "CASCADE", "RESTRICT", "cascade", "Restrict"]
 
 
 def type_tokens(ty):
-    words, size = ty
+    words, size = ty[0], ty[1]
     toks = []
     for w in words:
         toks += T(w)
     if size:
         toks += paren(comma_list([N(x) for x in size]))
+    for w in (ty[2] if len(ty) > 2 else ()):
+        toks += T(w)              # type words written after the size: decimal(10,2) unsigned
     return toks
 
 
 def type_expect(ty):
-    words, size = ty
+    words, size = list(ty[0]) + list(ty[2] if len(ty) > 2 else ()), ty[1]
     if not size:
         sz = None
     elif len(size) == 1:
